@@ -25,6 +25,14 @@
 (*   Parse   splits every line on runs of whitespace and zips the tokens   *)
 (*           with the documented sub-field names                           *)
 (*   Load    the parsed paragraph is again an object that can be dumped    *)
+(*   AppendRec / SetSize / Assign / Delete                                 *)
+(*           the life cycle is a HISTORY: after a dump the object is still *)
+(*           there and its record lists are plain mutable lists: a record  *)
+(*           may be appended or the size of a record replaced IN PLACE     *)
+(*           (obj[f].append(rec), obj[f][r]['size'] = s), a list replaced  *)
+(*           by assignment, a field deleted; then it is dumped again.  The *)
+(*           design recomputes the width table at EVERY dump, so all the   *)
+(*           invariants speak about the CURRENT records.                   *)
 (*                                                                         *)
 (* The width computation needs the records of a field only where the width *)
 (* depends on them (PdiffIndex; Release with dak).  The design iterates    *)
@@ -38,9 +46,14 @@
 (* negative control, SplitEverySpace = TRUE, makes Parse split at every    *)
 (* single blank (line.split(' ')) so that the padding of the size column   *)
 (* produces empty tokens: RecordsRoundTrip is violated                     *)
-(* (MC_MultiValued_neg_split.cfg).  Both were tried; props/c12.py re-runs  *)
-(* IterateAllFields in every check and the other two configurations in the *)
-(* thorough tier, and fails (exit 2) if TLC stops reporting the violation.  *)
+(* (MC_MultiValued_neg_split.cfg).  A third one, CacheWidths = TRUE,       *)
+(* remembers the width table of the first dump until a field is assigned   *)
+(* or deleted (but not when a list is changed in place): after an in-place *)
+(* growth of the longest size TLC reports WidthRule violated               *)
+(* (MC_MultiValued_neg_cache.cfg).  All were tried; props/c12.py re-runs   *)
+(* IterateAllFields and CacheWidths in every check and the other two       *)
+(* configurations in the thorough tier, and fails (exit 2) if TLC stops    *)
+(* reporting the violation.                                                *)
 (*                                                                         *)
 (* The single-line form (the only record of a field written on the header  *)
 (* line, "SHA1-Current: <hash> <size>", exposed as ONE mapping instead of  *)
@@ -74,13 +87,14 @@
 EXTENDS Naturals, Sequences, FiniteSets, SequencesExt, FiniteSetsExt, TLC, Json
 
 CONSTANTS Tables,            \* class -> <<[f |-> field name, subs |-> <<sub-field names>>], ...>>  (<- DocTables)
-          Modes,             \* set of [name, configs, shapes, uniform, maxf, heavy, emitmod] (see the end of the module)
+          Modes,             \* set of mode records (see the end of the module)
           IterateAllFields,  \* negative control: width computation iterates over ALL fields of the class
           SplitEverySpace,   \* negative control: Parse splits at every blank
+          CacheWidths,       \* negative control: the width table of the first dump is kept until a field is assigned/deleted
           Emit,              \* print CASE lines (and the tables)
           EmitOff            \* rotates the sample of the modes with emitmod > 1 (set from the seed)
 
-VARIABLES mode,              \* the enumeration mode: [name, uniform, maxf, heavy, emitmod]
+VARIABLES mode,              \* the enumeration mode: [name, uniform, maxf, heavy, emitmod, maxmut, flimit]
           cls, beh,          \* configuration: class, Release.size_field_behavior ("-" for the other classes)
           shape,             \* the uniform shape (NoShape when the mode is not uniform)
           para,              \* field index -> [form, recs]: the structured fields PRESENT in the object
@@ -88,9 +102,12 @@ VARIABLES mode,              \* the enumeration mode: [name, uniform, maxf, heav
           widths,            \* output of Widths: field index -> width of the size column (0: not padded)
           text,              \* output of Dump: field index -> [form, lines]
           parsed,            \* result of Parse: field index -> [form, recs of <<[n |-> name, t |-> token]>>]
-          res                \* outcome of Dump: "ok" | "KeyError"
+          res,               \* outcome of Dump: "ok" | "KeyError"
+          nmut,              \* number of mutations applied to the object so far
+          hist,              \* modes with maxmut > 0: the history (dumps with their expected layout, mutations)
+          cache              \* [valid, w]: remembered width table (always NoCache unless CacheWidths)
 
-vars == <<mode, cls, beh, shape, para, phase, widths, text, parsed, res>>
+vars == <<mode, cls, beh, shape, para, phase, widths, text, parsed, res, nmut, hist, cache>>
 
 ----------------------------------------------------------------------------
 (* The five class tables, transcribed from the "Multivalued fields" lists   *)
@@ -198,11 +215,13 @@ MExt(p, f, e) == [g \in DOMAIN p \cup {f} |-> IF g = f THEN e ELSE p[g]]
 \* kind, the size token the length the shape says, free tokens (names, dates ...) some length
 MKindLen(s) == CASE s \in {"md5sum", "md5"} -> 32 [] s \in {"sha1", "SHA1"} -> 40
                  [] s \in {"sha256", "SHA256"} -> 64 [] s = "sha512" -> 128 [] OTHER -> 0
-MMkRecs(subs, sizes) ==
+MMkRecsOff(subs, sizes, off) ==
     [r \in 1..Len(sizes) |-> [i \in 1..Len(subs) |->
-        [id  |-> (r - 1) * Len(subs) + i,
+        [id  |-> off + (r - 1) * Len(subs) + i,
          len |-> IF subs[i] = "size" THEN sizes[r]
                  ELSE IF MKindLen(subs[i]) > 0 THEN MKindLen(subs[i]) ELSE 3 + 4 * r + i]]]
+MMkRecs(subs, sizes) == MMkRecsOff(subs, sizes, 0)
+MPairs(rec) == [i \in 1..Len(rec) |-> <<rec[i].id, rec[i].len>>]
 
 RECURSIVE MEndCol(_, _)
 MEndCol(line, i) == IF i = 0 THEN 0 ELSE MEndCol(line, i - 1) + line[i].pad + line[i].len
@@ -210,91 +229,149 @@ MMask(S) == FoldSet(LAMBDA f, acc : acc + 2 ^ (f - 1), 0, S)
 
 ----------------------------------------------------------------------------
 NoShape == [form |-> "none", sizes |-> <<>>]
+NoCache == [valid |-> FALSE, w |-> <<>>]
 \* (the mode's small attributes are carried in the state: TLC re-evaluates Modes on every use)
-ModeShapes == (CHOOSE m \in Modes : m.name = mode.name).shapes
+ModeDef      == CHOOSE m \in Modes : m.name = mode.name
+ModeShapes   == ModeDef.shapes
+ModeMutSizes == ModeDef.mutsizes
 NFields == Len(Tables[cls])
 Subs(f) == MSubs(Tables, cls, f)
 
 Init == /\ \E m \in Modes : /\ mode = [name |-> m.name, uniform |-> m.uniform, maxf |-> m.maxf,
-                                        heavy |-> m.heavy, emitmod |-> m.emitmod]
+                                        heavy |-> m.heavy, emitmod |-> m.emitmod,
+                                        maxmut |-> m.maxmut, flimit |-> m.flimit]
                             /\ \E cf \in m.configs : cls = cf[1] /\ beh = cf[2]
                             /\ shape \in (IF m.uniform THEN m.shapes ELSE {NoShape})
         /\ para = <<>> /\ phase = "build" /\ widths = <<>> /\ text = <<>> /\ parsed = <<>> /\ res = "ok"
+        /\ nmut = 0 /\ hist = <<>> /\ cache = NoCache
 
 \* obj[field] = [record, ...]  (or one mapping: single-line form)
 BuildWith(f, e) == /\ phase = "build"
                    /\ f \in 1..NFields /\ f \notin DOMAIN para
                    /\ MEntryOK(Subs(f), e)
                    /\ para' = MExt(para, f, e)
-                   /\ UNCHANGED <<mode, cls, beh, shape, phase, widths, text, parsed, res>>
-\* bounded enumeration: fields are added in table order (every subset is reached exactly once)
-Build(f, sh) == /\ phase = "build"
-                /\ Cardinality(DOMAIN para) < mode.maxf
+                   /\ cache' = NoCache
+                   /\ UNCHANGED <<mode, cls, beh, shape, phase, widths, text, parsed, res, nmut, hist>>
+\* bounded enumeration: fields are added in table order (every subset is reached exactly once),
+\* before the first dump
+Build(f, sh) == /\ phase = "build" /\ hist = <<>>
+                /\ Cardinality(DOMAIN para) < mode.maxf /\ f <= mode.flimit
                 /\ \A g \in DOMAIN para : g < f
                 /\ BuildWith(f, [form |-> sh.form, recs |-> MMkRecs(Subs(f), sh.sizes)])
 
-\* one CASE line: class, behaviour, "unspecified" flag and per present field
-\* <<index, name, form, width (0: none), width promised?, names of the parsed record, lines of <<pad, id, len>>>>
-CaseOf(pp) ==
+\* one CASE line: mode, class, behaviour, "unspecified" flag, per present field
+\* F: <<index, name, form, width (0: none), width promised?, names of the parsed record, lines of <<pad, id, len>>>>
+\* and, in a mode with mutations, the history H: <<"dump", F>>, <<"append", f, record>>,
+\* <<"setsize", f, r, token>>, <<"assign", f, records>>, <<"delete", f>> (tokens as <<id, len>>)
+CaseF(pp) ==
     LET present == SetToSortSeq(DOMAIN para, <) IN
-    [m |-> mode.name, c |-> cls, b |-> beh, u |-> MUnspecified(cls, beh, para),
-     F |-> [k \in 1..Len(present) |->
-              LET f == present[k] IN
-              << f, Tables[cls][f].f, para[f].form,
-                 widths[f], MWidthSpecified(cls, beh, Subs(f), para[f]),
-                 MNames(pp[f].recs[1]),
-                 [r \in 1..Len(text[f].lines) |-> [i \in 1..Len(text[f].lines[r]) |->
-                     <<text[f].lines[r][i].pad, text[f].lines[r][i].id, text[f].lines[r][i].len>>]] >>]]
+    [k \in 1..Len(present) |->
+       LET f == present[k] IN
+       << f, Tables[cls][f].f, para[f].form,
+          widths[f], MWidthSpecified(cls, beh, Subs(f), para[f]),
+          MNames(pp[f].recs[1]),
+          [r \in 1..Len(text[f].lines) |-> [i \in 1..Len(text[f].lines[r]) |->
+              <<text[f].lines[r][i].pad, text[f].lines[r][i].id, text[f].lines[r][i].len>>]] >>]
+CaseOf(pp, h) == [m |-> mode.name, c |-> cls, b |-> beh, u |-> MUnspecified(cls, beh, para), F |-> CaseF(pp), H |-> h]
 \* sampling of the big modes for the replay (all cases are model-checked, the selected ones are
 \* printed): in a uniform mode with emitmod = number of shapes every subset is printed with
-\* exactly one shape; subsets with <= 1 present or <= 1 absent field are always printed
+\* exactly one shape; subsets with <= 1 present or <= 1 absent field are always printed; in a
+\* mode with mutations the complete histories are printed (their prefixes are replayed with them)
 ShapeNo == IF mode.uniform
            THEN LET sq == SetToSeq(ModeShapes) IN CHOOSE i \in 1..Len(sq) : sq[i] = shape
            ELSE FoldSet(LAMBDA f, acc : acc + f * (3 * FoldSet(LAMBDA n, a : a + n, 0, MSizeLens(Subs(f), para[f].recs))
                                                      + Len(para[f].recs)), 0, DOMAIN para)
-Selected == \/ mode.emitmod = 1
-            \/ NFields > 4 /\ (Cardinality(DOMAIN para) <= 1 \/ Cardinality(DOMAIN para) >= NFields - 1)
-            \/ (((MMask(DOMAIN para) * 7919) % 8191) + ShapeNo + EmitOff) % mode.emitmod = 0
+Sampled  == \/ mode.emitmod = 1
+            \/ (((MMask(DOMAIN para) * 7919) % 8191) + ShapeNo + 5 * Len(hist) + EmitOff) % mode.emitmod = 0
+Selected == IF mode.maxmut > 0
+            THEN (nmut = mode.maxmut \/ DOMAIN para = {}) /\ Sampled
+            ELSE \/ NFields > 4 /\ (Cardinality(DOMAIN para) <= 1 \/ Cardinality(DOMAIN para) >= NFields - 1)
+                 \/ Sampled
 
-\* obj.dump(), first half: the width table (this is where an absent field hurts)
+\* obj.dump(), first half: the width table (this is where an absent field hurts); the design
+\* computes it from the current records at every dump
 IterSet == IF IterateAllFields THEN 1..NFields ELSE DOMAIN para
+WTable  == IF CacheWidths /\ cache.valid THEN cache.w ELSE MWidthTable(Tables, cls, beh, para)
 Widths == /\ phase = "build"
           /\ res' = MDumpRes(cls, beh, DOMAIN para, IterSet)
-          /\ widths' = (IF res' = "ok" THEN MWidthTable(Tables, cls, beh, para) ELSE <<>>)
+          /\ widths' = (IF res' = "ok" THEN WTable ELSE <<>>)
+          /\ cache' = (IF CacheWidths /\ res' = "ok" THEN [valid |-> TRUE, w |-> WTable] ELSE cache)
           /\ phase' = "widths"
-          /\ UNCHANGED <<mode, cls, beh, shape, para, text, parsed>>
+          /\ UNCHANGED <<mode, cls, beh, shape, para, text, parsed, nmut, hist>>
 \* second half: every present field is written with its width
 \* (a mode with heavy = FALSE goes on only with the paragraphs that are printed as CASE lines)
 Write  == /\ phase = "widths" /\ res = "ok"
           /\ (IF mode.heavy THEN TRUE ELSE Selected)
           /\ text' = MCanonText(Tables, cls, para, widths)
           /\ phase' = "dumped"
-          /\ UNCHANGED <<mode, cls, beh, shape, para, widths, parsed, res>>
+          /\ UNCHANGED <<mode, cls, beh, shape, para, widths, parsed, res, nmut, hist, cache>>
 \* both halves in one step, with t as the text written (trace validation: t = the observed text)
 DumpTo(t) == /\ phase = "build"
              /\ res' = MDumpRes(cls, beh, DOMAIN para, IterSet)
-             /\ widths' = (IF res' = "ok" THEN MWidthTable(Tables, cls, beh, para) ELSE <<>>)
+             /\ widths' = (IF res' = "ok" THEN WTable ELSE <<>>)
+             /\ cache' = (IF CacheWidths /\ res' = "ok" THEN [valid |-> TRUE, w |-> WTable] ELSE cache)
              /\ text' = (IF res' = "ok" THEN t ELSE <<>>)
              /\ phase' = "dumped"
-             /\ UNCHANGED <<mode, cls, beh, shape, para, parsed>>
+             /\ UNCHANGED <<mode, cls, beh, shape, para, parsed, nmut, hist>>
 
 \* cls(text): every line of every structured field becomes a record
 Parse == /\ phase = "dumped" /\ res = "ok"
          /\ parsed' = [f \in DOMAIN text |-> MParseField(Subs(f), text[f], SplitEverySpace)]
          /\ phase' = "parsed" /\ text' = <<>>
-         /\ UNCHANGED <<mode, cls, beh, shape, para, widths, res>>
-         /\ (Emit /\ Selected) => PrintT(<<"CASE", ToJson(CaseOf(parsed'))>>)
+         /\ hist' = (IF mode.maxmut > 0 THEN Append(hist, <<"dump", CaseF(parsed')>>) ELSE hist)
+         /\ UNCHANGED <<mode, cls, beh, shape, para, widths, res, nmut, cache>>
+         /\ (Emit /\ Selected) => PrintT(<<"CASE", ToJson(CaseOf(parsed', hist'))>>)
 
 \* the parsed paragraph is an object like the one that was built: it can be dumped again
 \* (not explored in a mode with heavy = FALSE: RecordsRoundTrip says the same)
-Load == /\ phase = "parsed" /\ mode.heavy
+Load == /\ phase = "parsed" /\ mode.heavy /\ mode.maxmut = 0
         /\ para' = MUntag(parsed)
         /\ phase' = "build" /\ widths' = <<>> /\ text' = <<>> /\ parsed' = <<>>
-        /\ UNCHANGED <<mode, cls, beh, shape, res>>
+        /\ cache' = NoCache
+        /\ UNCHANGED <<mode, cls, beh, shape, res, nmut, hist>>
+
+\* ---- mutations of the object that was dumped; the next dump sees the new records
+Mutable == phase \in {"dumped", "parsed"} /\ res = "ok"
+AfterMut(entry) == /\ phase' = "build" /\ widths' = <<>> /\ text' = <<>> /\ parsed' = <<>>
+                   /\ nmut' = nmut + 1
+                   /\ hist' = (IF mode.maxmut > 0 THEN Append(hist, entry) ELSE hist)
+                   /\ UNCHANGED <<mode, cls, beh, shape, res>>
+\* obj[field].append(record): in place
+AppendRec(f, rec) == /\ Mutable /\ f \in DOMAIN para /\ para[f].form = "multi"
+                     /\ Len(rec) = Len(Subs(f))
+                     /\ para' = [para EXCEPT ![f].recs = Append(@, rec)]
+                     /\ UNCHANGED cache
+                     /\ AfterMut(<<"append", f, MPairs(rec)>>)
+\* obj[field][r]['size'] = token: in place
+SetSize(f, r, tok) == /\ Mutable /\ f \in DOMAIN para /\ r \in 1..Len(para[f].recs)
+                      /\ para' = [para EXCEPT ![f].recs[r][MSizeCol(Subs(f))] = tok]
+                      /\ UNCHANGED cache
+                      /\ AfterMut(<<"setsize", f, r, <<tok.id, tok.len>>>>)
+\* obj[field] = [record, ...]: the whole list is replaced (or the field added) by assignment
+Assign(f, e) == /\ Mutable /\ f \in 1..NFields /\ MEntryOK(Subs(f), e)
+                /\ para' = MExt(para, f, e)
+                /\ cache' = NoCache
+                /\ AfterMut(<<"assign", f, [r \in 1..Len(e.recs) |-> MPairs(e.recs[r])]>>)
+\* del obj[field]
+Delete(f) == /\ Mutable /\ f \in DOMAIN para
+             /\ para' = [g \in DOMAIN para \ {f} |-> para[g]]
+             /\ cache' = NoCache
+             /\ AfterMut(<<"delete", f>>)
+\* bounded enumeration: fresh tokens (ids beyond those of MMkRecs), sizes from the mode
+Fresh == 1000 * (nmut + 1)
+Mutate == /\ phase = "parsed" /\ nmut < mode.maxmut
+          /\ \E f \in DOMAIN para :
+               \/ /\ para[f].form = "multi" /\ Len(para[f].recs) < 3
+                  /\ \E n \in ModeMutSizes : AppendRec(f, MMkRecsOff(Subs(f), <<n>>, Fresh)[1])
+               \/ \E r \in 1..Len(para[f].recs) : \E n \in ModeMutSizes :
+                     /\ n # para[f].recs[r][MSizeCol(Subs(f))].len
+                     /\ SetSize(f, r, [id |-> Fresh + 500 + r, len |-> n])
+               \/ \E sh \in ModeShapes : Assign(f, [form |-> sh.form, recs |-> MMkRecsOff(Subs(f), sh.sizes, Fresh + 100)])
+               \/ Delete(f)
 
 Next == \/ /\ phase = "build" /\ Cardinality(DOMAIN para) < mode.maxf
            /\ \E sh \in (IF mode.uniform THEN {shape} ELSE ModeShapes) : \E f \in 1..NFields : Build(f, sh)
-        \/ Widths \/ Write \/ Parse \/ Load
+        \/ Widths \/ Write \/ Parse \/ Load \/ Mutate
 
 Spec == Init /\ [][Next]_vars
 
@@ -302,8 +379,9 @@ ASSUME Emit => PrintT(<<"TABLES", ToJson(Tables)>>)
 
 ----------------------------------------------------------------------------
 \* invariants.  Those on the layout are evaluated in the state that holds a freshly dumped
-\* text; in a mode with heavy = FALSE (quick tier, the 2^14 subsets of PdiffIndex) they are
-\* left to the other modes, which cover the same shapes.
+\* text -- of the first dump and of every dump after a mutation, always against the CURRENT
+\* records (para); in a mode with heavy = FALSE (quick tier, the 2^14 subsets of PdiffIndex)
+\* they are left to the other modes, which cover the same shapes.
 Heavy  == mode.heavy
 Dumped == phase = "dumped" /\ res = "ok"
 
@@ -314,6 +392,8 @@ TypeOK == /\ phase \in {"build", "widths", "dumped", "parsed"} /\ res \in {"ok",
           /\ (phase = "build" \/ res # "ok") => widths = <<>>
           /\ (phase # "build" /\ res = "ok") => DOMAIN widths = DOMAIN para
           /\ phase # "parsed" => parsed = <<>>
+          /\ nmut <= mode.maxmut
+          /\ ~CacheWidths => cache = NoCache
 
 \* dump() is defined for EVERY subset of the structured fields
 DumpTotal == phase # "build" => res = "ok"
@@ -330,10 +410,10 @@ WidthTable == (phase = "widths" /\ res = "ok") =>
 \* the dumped text is a rendering of the records (incl. the documented width)
 DumpExplains == (Dumped /\ Heavy) => MExplains(Tables, cls, beh, para, text, TRUE)
 
-\* parsing the dump gives the records that were built: same fields, same number of records,
+\* parsing the dump gives the records the object holds: same fields, same number of records,
 \* same tokens in the same order
 RecordsRoundTrip == phase = "parsed" => MUntag(parsed) = para
-LoadIsIdentity   == [][(phase = "parsed" /\ phase' = "build") => para' = para]_vars
+LoadIsIdentity   == [][(phase = "parsed" /\ phase' = "build" /\ nmut' = nmut) => para' = para]_vars
 
 \* every parsed record carries exactly the documented sub-field names, in the documented order
 SubFieldNames == phase = "parsed" =>
@@ -371,13 +451,17 @@ AllConfigs   == {<<"Dsc", "-">>, <<"Changes", "-">>, <<"BuildInfo", "-">>,
 PdiffConfig  == {<<"PdiffIndex", "-">>}
 SmallConfigs == AllConfigs \ PdiffConfig
 NoLookupConfigs == {<<"Dsc", "-">>, <<"Changes", "-">>, <<"BuildInfo", "-">>, <<"Release", Apt>>}
+HistConfigs  == {<<"Dsc", "-">>, <<"Changes", "-">>, <<"Release", Apt>>, <<"Release", Dak>>}
 
 Sh(form, sizes)      == [form |-> form, sizes |-> sizes]
 MultiShapes(lens, k) == {Sh("multi", s) : s \in UNION {[1..n -> lens] : n \in 1..k}}
 SingleShapes(lens)   == {Sh("single", <<n>>) : n \in lens}
-Mode(name, configs, shapes, uniform, maxf, heavy, emitmod) ==
+\* a mode with histories: maxmut mutations (sizes of new tokens from mutsizes), fields 1..flimit
+HMode(name, configs, shapes, uniform, maxf, heavy, emitmod, maxmut, mutsizes, flimit) ==
     [name |-> name, configs |-> configs, shapes |-> shapes, uniform |-> uniform, maxf |-> maxf,
-     heavy |-> heavy, emitmod |-> emitmod]
+     heavy |-> heavy, emitmod |-> emitmod, maxmut |-> maxmut, mutsizes |-> mutsizes, flimit |-> flimit]
+Mode(name, configs, shapes, uniform, maxf, heavy, emitmod) ==
+    HMode(name, configs, shapes, uniform, maxf, heavy, emitmod, 0, {}, 99)
 
 ShapesSubsetsQuick == {Sh("multi", <<17, 2>>), Sh("single", <<5>>)}
 ShapesSubsetsP1    == {Sh("multi", <<12>>)}
@@ -389,12 +473,15 @@ ShapesRecordsQuick == MultiShapes({1, 2, 9, 15, 16, 17, 18}, 2) \cup SingleShape
 ShapesRecords      == MultiShapes(1..18, 2) \cup SingleShapes(1..18)
 ShapesPairsQuick   == MultiShapes({1, 17}, 2) \cup SingleShapes({3})
 ShapesPairs        == MultiShapes({1, 16, 17}, 2) \cup SingleShapes({3, 17})
+ShapesHist         == {Sh("multi", <<2>>), Sh("multi", <<5, 2>>)}
 
 \* quick tier (two TLC runs in parallel)
 ModesQuick ==
   { Mode("subsets4", SmallConfigs, ShapesSubsets,      TRUE,  4,  TRUE,  1),
     Mode("records",  AllConfigs,   ShapesRecordsQuick, FALSE, 1,  TRUE,  1),
-    Mode("pairs",    SmallConfigs, ShapesPairsQuick,   FALSE, 2,  TRUE,  1) }
+    Mode("pairs",    SmallConfigs, ShapesPairsQuick,   FALSE, 2,  TRUE,  1),
+    HMode("hist",    HistConfigs,  ShapesHist,         FALSE, 1,  TRUE,  3, 2, {1, 7}, 4),
+    HMode("histP",   PdiffConfig,  ShapesHist,         FALSE, 1,  TRUE,  3, 2, {1, 7}, 2) }
 ModesQuickP ==
   { Mode("subsetsP", PdiffConfig,  ShapesSubsetsP1,    TRUE,  14, FALSE, 16) }
 \* thorough tier
@@ -402,11 +489,14 @@ ModesThorough ==
   { Mode("subsets4", SmallConfigs, ShapesSubsets,      TRUE,  4,  TRUE,  1),
     Mode("records",  AllConfigs,   ShapesRecords,      FALSE, 1,  TRUE,  1),
     Mode("pairs",    AllConfigs,   ShapesPairs,        FALSE, 2,  TRUE,  5),
-    Mode("full4",    SmallConfigs, ShapesPairsQuick,   FALSE, 4,  TRUE,  6) }
+    Mode("full4",    SmallConfigs, ShapesPairsQuick,   FALSE, 4,  TRUE,  6),
+    HMode("hist",    AllConfigs,   ShapesHist,         FALSE, 1,  TRUE,  2, 2, {1, 7, 17}, 4),
+    HMode("hist2",   AllConfigs,   ShapesHist,         FALSE, 2,  TRUE,  2, 1, {1, 7}, 4) }
 ModesThoroughP ==
   { Mode("subsetsP", PdiffConfig,  ShapesSubsetsP,     TRUE,  14, TRUE,  5) }
 \* negative controls (small)
 ModesNegIterate   == { Mode("neg", AllConfigs,      ShapesSubsetsQuick, TRUE, 2, TRUE, 1) }
 ModesNegIterateOk == { Mode("neg", NoLookupConfigs, ShapesSubsetsQuick, TRUE, 4, TRUE, 1) }
 ModesNegSplit     == { Mode("neg", AllConfigs,      ShapesSubsetsQuick, TRUE, 1, TRUE, 1) }
+ModesNegCache     == { HMode("neg", AllConfigs,     ShapesHist, FALSE, 1, TRUE, 1, 1, {7}, 2) }
 =============================================================================
